@@ -20,15 +20,15 @@ theorem estimate_in_range (plain : Array Nat) (blocks : List Block) (p : Params)
 /-- THE PUBLIC PAIR: whenever the model of `decompress_deflate_stream` returns Ok(r), with either
     verify setting, the model of `recompress_deflate_stream` on r's plaintext and corrections returns
     exactly D[..r.size] -/
-theorem public_pair_exact (verify : Bool) (d : List UInt8) (hd : d.length < 2 ^ 29) (r : StreamResult)
+theorem public_pair_exact (verify : Bool) (d : List UInt8) (r : StreamResult)
     (h : decompressStream Est.estimate Chains.pred verify d = .ok r) :
     recompressStream Chains.pred r.plain r.corr = .ok (d.take r.size) ∧ r.size ≤ d.length :=
-  Proofs.public_pair_exact verify d hd r h
+  Proofs.public_pair_exact verify d r h
 
 /-- both verify settings are the same function -/
-theorem public_verify_same (d : List UInt8) (hd : d.length < 2 ^ 29) :
+theorem public_verify_same (d : List UInt8) :
     decompressStream Est.estimate Chains.pred true d = decompressStream Est.estimate Chains.pred false d :=
-  Proofs.public_verify_same d hd
+  Proofs.public_verify_same d
 
 /-- the result depends only on D[..r.size] -/
 theorem public_prefix (verify : Bool) (d : List UInt8) (r : StreamResult)
@@ -38,12 +38,12 @@ theorem public_prefix (verify : Bool) (d : List UInt8) (r : StreamResult)
 
 /-- BYTE LEVEL, end to end: the corrections encode to bytes, the bytes read back through the bool
     coder decode to the corrections, and reconstruction returns D[..r.size] -/
-theorem public_bytes_chain (verify : Bool) (d : List UInt8) (hd : d.length < 2 ^ 29) (r : StreamResult)
-    (h : decompressStream Est.estimate Chains.pred verify d = .ok r) (hsize : r.plain.size < 2 ^ 31 - 1) :
+theorem public_bytes_chain (verify : Bool) (d : List UInt8) (r : StreamResult)
+    (h : decompressStream Est.estimate Chains.pred verify d = .ok r) :
     ∃ evs bytes, encodeOps 0 r.corr = .ok evs ∧ encodeBytes r.corr = .ok bytes ∧
       decodeOps 0 (r.corr.map Op.kind) (VP8.readEvents bytes (evs.map (·.ctx))) = .ok (r.corr, 0, []) ∧
       recompressStream Chains.pred r.plain r.corr = .ok (d.take r.size) :=
-  Proofs.public_bytes_chain verify d hd r h hsize
+  Proofs.public_bytes_chain verify d r h
 
 /-- the level tables the model's estimator uses are the ones in the source now -/
 theorem level_tables_match_source :
